@@ -144,7 +144,7 @@ def build_basis(desc):
     from qiskit_addon_cutting.qpd import QPDBasis
     if desc["kind"] == "gate":
         return QPDBasis.from_instruction(mk_op(desc["gate"], desc.get("params", ())))
-    maps = [tuple([mk_op(o["name"], o.get("params", ())) for o in side] for side in m) for m in desc["maps"]]
+    maps = [tuple([mk_op(o["name"], o.get("params", ()), o.get("label")) for o in side] for side in m) for m in desc["maps"]]
     return QPDBasis(maps, [float(Fraction(c)) for c in desc["coeffs"]])
 
 
